@@ -675,6 +675,7 @@ type caseDef struct {
 	scheme int
 	value  string
 	first  int
+	pool   int
 }
 
 func newWorld(sch wk.IDScheme, queryValues []string) (*world, error) {
@@ -686,7 +687,8 @@ func newWorld(sch wk.IDScheme, queryValues []string) (*world, error) {
 	return &world{x: x, base: base, queries: queriesFor(queryValues)}, nil
 }
 
-func runHistory(c *world, r *kit.Result, alphabet []op, first int, depth int, reps int, sample bool) {
+// label "" = part H (operations may repeat, reduced alphabet at level 3); otherwise part D (each operation at most once).
+func runHistory(c *world, r *kit.Result, alphabet []op, first int, depth int, reps int, sample bool, label string) {
 	seenState := map[string]bool{}
 	var path []int
 	var rec func()
@@ -705,7 +707,11 @@ func runHistory(c *world, r *kit.Result, alphabet []op, first int, depth int, re
 			}
 			if err != nil {
 				if i == len(path)-1 {
-					r.AddOutcome("edit-rejected:" + o.class)
+					if label == "" {
+						r.AddOutcome("edit-rejected:" + o.class)
+					} else {
+						r.AddOutcome(label + "edit-rejected-and-history-cut")
+					}
 				}
 				return false // only successful edits form histories
 			}
@@ -720,7 +726,7 @@ func runHistory(c *world, r *kit.Result, alphabet []op, first int, depth int, re
 		private := ingest.VerifC18OverlayState(w)
 		key := hash(private)
 		if seenState[key] {
-			r.AddOutcome(fmt.Sprintf("depth%d:state-already-checked", len(path)))
+			r.AddOutcome(fmt.Sprintf("%sdepth%d:state-already-checked", label, len(path)))
 			return true
 		}
 		seenState[key] = true
@@ -730,7 +736,7 @@ func runHistory(c *world, r *kit.Result, alphabet []op, first int, depth int, re
 		probes := c.probesFor(w)
 		ed := c.dump(w, probes)
 		out := c.checkState(r, w, ed, probes, info, reps)
-		r.AddOutcome(fmt.Sprintf("depth%d:%s", len(path), out))
+		r.AddOutcome(fmt.Sprintf("%sdepth%d:%s", label, len(path), out))
 		r.Count("last-op:"+alphabet[path[len(path)-1]].class, 1)
 		if sample && r.Sample == nil && len(path) == depth {
 			r.Sample = map[string]interface{}{"history": info.hist, "outcome": out}
@@ -742,8 +748,17 @@ func runHistory(c *world, r *kit.Result, alphabet []op, first int, depth int, re
 			return
 		}
 		for oi := range alphabet {
-			if len(path)+1 == 3 && !alphabet[oi].deep {
+			if label == "" && len(path)+1 == 3 && !alphabet[oi].deep {
 				continue // third level: reduced alphabet
+			}
+			if label != "" {
+				used := false
+				for _, pi := range path {
+					used = used || pi == oi
+				}
+				if used {
+					continue
+				}
 			}
 			path = append(path, oi)
 			rec()
@@ -922,6 +937,7 @@ func main() {
 		ID: "C18", Level: "model_checking",
 		Rule: "Part V: every value of the tag-string menu (numbers, lat-lngs, feature IDs, ';' lists, YAML-special scalars, quotes, colons, leading '#', newline, empty) stored in every place of a fixed list (AddTag with plain/searchable key on each base and overlay feature type, overriding existing tags, tags of newly added features of each type, relation roles, collection keys/values). " +
 			"Part K: every key sequence of length <= L over an alphabet of 4 keys given in ascending order (strings a<b<c<d; ints -3<2<10<33, whose decimal texts sort differently; feature IDs of base features; mixed 1,2,a,b), shortest first then lexicographic — hence every order class (ascending, descending, unsorted only in the first pair / last pair / middle, several pairs, equal keys, and their combinations; classified by an independent comparator and counted per class in the counters) — as the keys of a collection (value at position j identifies j, alternating string/int), in each of 6 short histories (added, replacing the base collection, followed by plain / searchable AddTag and RemoveTag, replacing an earlier overlay collection). " +
+			"Part D: dependency DAGs of newly added features (not in the base): new point(s) -> new path -> {area, second area, relation, collection} diamonds, a new area that is a member of two relations and a key of a collection, relation-of-relation chains with a shared new member; every sequence adding each feature of the pool at most once, in every order the world accepts (a rejected addition cuts the sequence), every prefix state checked. An error or panic of IngestChangesFromYAML(...).Apply on the file exported from a world the edits were accepted into is a violation (import-error:<kind>:after-<last operation>). " +
 			"Part H: every sequence of <= D successful operations of the alphabet (feature additions: points, paths, areas, relations, collections incl. one collection per key type {string,int} x length 2..4 x order class {ascending, descending, unsorted only in first pair, only in last pair, only in the middle, non-decreasing with equal keys}; AddTag/RemoveTag on 10 targets x {#s,p} x core values, overrides, removals) applied to a fresh MutableOverlayWorld over the base; a sequence is cut at the first rejected operation; the third level uses the reduced (deep) alphabet. " +
 			"Every reached state is checked unless a state with the same private state (overlaid features, modified tags, reference lists, search index posting lists) was already checked in the case. Non-trivial = the overlay holds at least one modification; distinct = distinct private states. " +
 			"Oracle: export with ExportChangesAsYAML, apply with IngestChangesFromYAML to a fresh MutableOverlayWorld over the same base, canonical dumps equal on every section: worldkit's (lookups by ID, tag keys and value strings, value kinds, Get of every present key, References, geometry at E7, members, items, locations, referrers, relations/collections/areas by feature, traversal, tag searches, enumeration) and this check's behavioural ones — Get for a menu of present and absent keys, Reference(i), and for every collection obtained by every route (FindFeatureByID, FindCollectionsByFeature of every ID, FindFeatures(all), EachFeature): items with key/value kinds, Count, FindValue(k) and FindValues(k, prefix) for every key k the edited world's collection holds plus a fixed menu of absent keys and keys of other kinds; the full rendering of every feature returned by FindFeatures(all) and EachFeature. The probe keys are taken from the EDITED world and put to both worlds. The export is repeated (map iteration order inside the exporter is not controllable) and each distinct file is imported.",
@@ -969,6 +985,21 @@ func main() {
 			for i, kc := range kcases {
 				cases = append(cases, caseDef{part: "K", scheme: kc.scheme, first: i})
 			}
+			nPools, poolDesc := 0, []string{}
+			for _, s := range schemes {
+				for pi, p := range pools(idsFor(wk.Schemes[s]), wk.Schemes[s]) {
+					if p.thor && tier != "thorough" {
+						continue
+					}
+					if s == schemes[0] {
+						nPools++
+						poolDesc = append(poolDesc, fmt.Sprintf("%s {%s}", p.name, strings.Join(p.names, ", ")))
+					}
+					for f := range p.feats {
+						cases = append(cases, caseDef{part: "D", scheme: s, pool: pi, first: f})
+					}
+				}
+			}
 			nFeatureOps := len(featureOps(idsFor(wk.Schemes[1])))
 			nOps := len(featureOps(idsFor(wk.Schemes[1]))) + len(tagOps(idsFor(wk.Schemes[1]), coreValues, deepValues))
 			nDeep := 0
@@ -1012,19 +1043,27 @@ func main() {
 						return r
 					}
 					c.queries = queriesFor(coreValues)
+					if cd.part == "D" {
+						p := pools(c.x, wk.Schemes[cd.scheme])[cd.pool]
+						c.x.Universe = append(append([]b6.FeatureID{}, c.x.Universe...), p.extra...)
+						runHistory(c, &r, p.ops(), cd.first, len(p.feats), reps, true, "D:")
+						r.Count("D:pool:"+p.name, r.States)
+						return r
+					}
 					if cd.part == "K" {
 						kc := kcases[cd.first]
 						runCollections(c, &r, keyTypes(c.x)[kc.ktype], seqs[kc.from:kc.to], reps)
 						return r
 					}
 					alphabet := append(featureOps(c.x), tagOps(c.x, coreValues, deepValues)...)
-					runHistory(c, &r, alphabet, cd.first, depth, reps, cd.first%17 == 0)
+					runHistory(c, &r, alphabet, cd.first, depth, reps, cd.first%17 == 0, "")
 					return r
 				}}, fmt.Sprintf("part V: %d values x 28 places x %d ID schemes; "+
 					"part K: all %d key sequences of length <= %d over 4 ordered keys x %d key types (string, int, feature-id, mixed int+string) x 6 histories (add; replace base collection; add + AddTag; add tagged + searchable AddTag + RemoveTag; add another collection then replace it [same private state as plain add: checked once]; replace base + AddTag) x %d ID schemes; "+
+					"part D: %d pools of NEW interdependent features x %d ID schemes, every sequence adding each feature of a pool at most once, in every order, cut at the first addition the world rejects, every prefix checked: %s; "+
 					"part H: all histories of <= %d successful operations over %d operations (%d feature additions incl. %d collections: for string and for int keys one per length 2..4 and order class ascending / descending / unsorted only in first pair / only in last pair / only in the middle / equal keys; level 3: %d-operation reduced alphabet), scheme %s; each export repeated %d times; "+
 					"observations per state: worldkit dump over %d IDs + per feature Get(%d keys), Reference(i); per collection and route (FindFeatureByID, FindCollectionsByFeature(every ID), FindFeatures(all), EachFeature) typed items, Count, FindValue and FindValues for every key of the edited collection + %d menu keys (absent, other kinds); features as returned by FindFeatures(all) and EachFeature; Tokens",
-					len(valueMenu), len(schemes), len(seqs), maxLen, nKeyTypes, len(schemes), depth, nOps, nFeatureOps, len(collectionRepresentatives(idsFor(wk.Schemes[1])))+5, nDeep, wk.Schemes[schemes[0]].Name, reps,
+					len(valueMenu), len(schemes), len(seqs), maxLen, nKeyTypes, len(schemes), nPools, len(schemes), strings.Join(poolDesc, " | "), depth, nOps, nFeatureOps, len(collectionRepresentatives(idsFor(wk.Schemes[1])))+5, nDeep, wk.Schemes[schemes[0]].Name, reps,
 					len(idsFor(wk.Schemes[1]).Universe), len(getKeys), 29)
 		},
 	})
